@@ -29,6 +29,7 @@
 #include "ola/Callback.h"
 #include "ola/Clock.h"
 #include "ola/Logging.h"
+#include "ola/io/SelectServer.h"
 #include "vh.h"
 
 #include "harness_poller.h"
@@ -344,8 +345,66 @@ static string handle(const string &payload) {
 }
 }  // namespace ta
 
+// ---------------------------------------------------------------- SelectServer-level timer registration
+// payload: "S op;op;..."  op: m<rep>,<ms> (millisecond overload) | i<rep>,<us> (TimeInterval overload) |
+//          a<us> (advance the virtual clock) | x (one RunOnce()); run on both back-ends.
+namespace ss {
+static VClock *g_clock;
+static vector<string> *g_log;
+static bool fired_rep(int ser) { g_log->push_back("F" + vh::str(ser) + "@" + vh::str(g_clock->Now())); return true; }
+static void fired_one(int ser) { g_log->push_back("F" + vh::str(ser) + "@" + vh::str(g_clock->Now())); }
+
+static string run_backend(const string &payload, bool force_select) {
+  VClock clock;
+  g_clock = &clock;
+  string out;
+  {
+    ola::io::SelectServer::Options opt;
+    opt.force_select = force_select;
+    opt.clock = &clock;
+    ola::io::SelectServer server(opt);
+    int ser = 0;
+    vector<string> ops = vh::split(payload.substr(2), ';');
+    for (size_t i = 0; i < ops.size(); i++) {
+      const string &o = ops[i];
+      vector<string> log;
+      g_log = &log;
+      if (o.empty()) continue;
+      string rest = o.substr(1);
+      switch (o[0]) {
+        case 'm': case 'i': {
+          vector<string> g = vh::split(rest, ',');
+          bool rep = g[0] == "1";
+          unsigned long long v = vh::num(g[1]);
+          int id = ser++;
+          if (o[0] == 'm') {
+            if (rep) server.RegisterRepeatingTimeout(static_cast<unsigned int>(v), ola::NewCallback(&fired_rep, id));
+            else server.RegisterSingleTimeout(static_cast<unsigned int>(v), ola::NewSingleCallback(&fired_one, id));
+          } else {
+            TimeInterval iv(static_cast<int64_t>(v));
+            if (rep) server.RegisterRepeatingTimeout(iv, ola::NewCallback(&fired_rep, id));
+            else server.RegisterSingleTimeout(iv, ola::NewSingleCallback(&fired_one, id));
+          }
+          break;
+        }
+        case 'a': clock.Advance(vh::num(rest)); break;
+        case 'x': server.RunOnce(); break;
+      }
+      if (i) out += "/";
+      for (size_t k = 0; k < log.size(); k++) out += (k ? "," : "") + log[k];
+    }
+    g_log = NULL;
+  }
+  return out;
+}
+static string handle(const string &payload) {
+  return "se=" + run_backend(payload, false) + ";ss=" + run_backend(payload, true);
+}
+}  // namespace ss
+
 static string dispatch(const string &payload) {
   if (payload.size() >= 2 && payload[0] == 'T') return ta::handle(payload);
+  if (payload.size() >= 2 && payload[0] == 'S') return ss::handle(payload);
 #ifdef HAVE_POLLER
   if (payload.size() >= 1 && payload[0] == 'P') return c16p::handle(payload);
 #endif
